@@ -8,7 +8,8 @@
     aligned pieces coincide.  The composition through load / classify / regrid
     (crossing positions exact on the lattice: C12) is tied by the command-level
     correspondence against planted datasets. *)
-From Spowtd Require Import Model.FitOffsets Proofs.QSum Proofs.FitOffsetsSpec Proofs.FindOffsetsSpec.
+From Spowtd Require Import Model.FitOffsets Model.Views Proofs.QSum Proofs.FitOffsetsSpec Proofs.FindOffsetsSpec
+  Proofs.PlantedViewSpec.
 
 Theorem C06_planted_curve_recovered : forall hm sids offs (T : Z -> Q) (cs : nat -> Q),
   find_offsets hm = Ok (sids, offs) ->
@@ -27,6 +28,44 @@ Theorem C06_planted_has_zero_spread : forall E (T : Z -> Q) (cs : nat -> Q),
   (forall c, In c E -> dev E cs c == 0) /\ objective E cs == 0 /\ forall s, resid_sum E cs s == 0.
 Proof. exact planted_is_exact. Qed.
 Print Assumptions C06_planted_has_zero_spread.
+
+(** "All aligned pieces coincide wherever they overlap" and "the assembled master
+    curve coincides with the underlying curve up to the choice of origin", at the
+    level the user reads them: the rows of the view over the tables written from
+    the result (average_recession_time / average_rising_depth, Model/Views.v) are
+    exactly (level, T(level) + k) on the grid levels that carry data, any two
+    aligned pieces agree at every level they share, and no piece deviates from
+    the level mean. *)
+Theorem C06_view_shows_planted_curve :
+  forall (start_of : nat -> Z) hm sids offs grid step (T : Z -> Q) (cs : nat -> Q),
+  find_offsets hm = Ok (sids, offs) ->
+  NoDup grid ->
+  (forall a b, In a sids -> In b sids -> start_of a = start_of b -> a = b) ->
+  let E := entries_of (drop_single hm) in
+  let x := assignment sids offs in
+  let O := written_offsets start_of sids offs in
+  let Cr := written_crossings start_of (drop_single hm) in
+  connected E ->
+  (forall c, In c E -> e_val c == T (e_head c) - cs (e_series c)) ->
+  exists k,
+    (forall z v, In (z, v) (view_average O Cr grid step) ->
+       exists h, In h grid /\ z = inject_Z h * step /\ v == T h + k) /\
+    (forall h, In h grid -> (exists c, In c (at_head E h)) ->
+       exists v, In (inject_Z h * step, v) (view_average O Cr grid step) /\ v == T h + k) /\
+    (forall c1 c2, In c1 E -> In c2 E -> e_head c1 = e_head c2 -> shifted x c1 == shifted x c2) /\
+    (forall c, In c E -> dev E x c == 0).
+Proof. exact planted_view_rows. Qed.
+Print Assumptions C06_view_shows_planted_curve.
+
+(** Origin-free form: differences of the master curve between two levels that
+    carry data are the differences of the planted curve, whatever constant the
+    alignment picked. *)
+Theorem C06_master_curve_differences : forall E x (T : Z -> Q) k,
+  (forall c, In c E -> x (e_series c) + e_val c == T (e_head c) + k) ->
+  forall h h', (exists c, In c (at_head E h)) -> (exists c, In c (at_head E h')) ->
+  head_mean E x h - head_mean E x h' == T h - T h'.
+Proof. exact planted_curve_differences. Qed.
+Print Assumptions C06_master_curve_differences.
 
 (** Non-vacuity: three pieces of T(h) = 10 - 2h with constants 0, 5, -3. *)
 Example C06_example :
